@@ -49,9 +49,27 @@ func runRaceStress(seed int64, goroutines, callsEach int) {
 		fmt.Fprintf(&big, "  b%d:\n    targetClass: ex.T\n    message: m\n    propertyConstraints:\n      ex.p%d / ex.p%d:\n        minCount: %d\n      ex.p%d:\n        in: [a, b, \"%d\"]\n", k, k%4, (k/4)%4, 1+k%2, (k+1)%4, k%3)
 	}
 	jobs = append(jobs, job{big.String(), jobs[1].data})
+	// COLD jobs: profiles without a `prefixes` section (built-in aliases only), each over property names no other call of this
+	// process has seen; their serial references are computed AFTER the concurrent phase, so the concurrent calls are the
+	// first to touch whatever the library keeps per process
+	nWarm := len(jobs)
+	for k := 0; k < 8; k++ {
+		var cp strings.Builder
+		fmt.Fprintf(&cp, "profile: cold %d\nviolation:\n  - v\nvalidations:\n  v:\n    targetClass: apiContract.EndPoint\n    message: m\n    propertyConstraints:\n", k)
+		for j := 0; j < 30; j++ {
+			fmt.Fprintf(&cp, "      core.n%d_%d_%d:\n        minCount: 1\n", seed%1000, k, j)
+		}
+		cp.WriteString("      core.name:\n        pattern: ^[a-z]+$\n")
+		jobs = append(jobs, job{cp.String(), `[{"@id":"http://ex.org/n/0","@type":["http://a.ml/vocabularies/apiContract#EndPoint"],"http://a.ml/vocabularies/core#name":"Abc"}]`})
+	}
+	nCold := len(jobs) - nWarm
 	jobs = append(jobs, job{genFail, jobs[0].data}, job{parseFail, jobs[0].data})
+	isCold := func(i int) bool { return i >= nWarm && i < nWarm+nCold }
 	serial := make([]string, len(jobs))
 	for i, j := range jobs {
+		if isCold(i) {
+			continue
+		}
 		o := validate(j.profile, j.data, defaultRC())
 		serial[i] = o.Kind + "\n" + o.Report
 	}
@@ -69,6 +87,11 @@ func runRaceStress(seed int64, goroutines, callsEach int) {
 	var mu sync.Mutex
 	mismatches := []string{}
 	calls := 0
+	type pending struct {
+		i         int
+		got, what string
+	}
+	var cold []pending
 	for t := 0; t < goroutines; t++ {
 		wg.Add(1)
 		go func(t int) {
@@ -82,6 +105,9 @@ func runRaceStress(seed int64, goroutines, callsEach int) {
 			}()
 			for k := 0; k < callsEach; k++ {
 				i := (t + k) % len(jobs)
+				if k == 0 {
+					i = nWarm + t%nCold // every goroutine starts with a cold job, all at the same time
+				}
 				switch k % 3 {
 				case 1:
 					i = len(jobs) - 1 - (k/3)%2 // every goroutine compiles the same REJECTED profile at the same time
@@ -111,6 +137,11 @@ func runRaceStress(seed int64, goroutines, callsEach int) {
 				}
 				mu.Lock()
 				calls++
+				if isCold(i) && what != "ValidateCompiled(shared)" {
+					cold = append(cold, pending{i, got, fmt.Sprintf("goroutine %d call %d %s on cold job %d", t, k, what, i)})
+					mu.Unlock()
+					continue
+				}
 				if got != want {
 					mismatches = append(mismatches, fmt.Sprintf("goroutine %d call %d %s on job %d differs from the serial result", t, k, what, i))
 				}
@@ -119,6 +150,18 @@ func runRaceStress(seed int64, goroutines, callsEach int) {
 		}(t)
 	}
 	wg.Wait()
+	// the cold jobs' references, now that the concurrent phase is over
+	for i, j := range jobs {
+		if isCold(i) {
+			o := validate(j.profile, j.data, defaultRC())
+			serial[i] = o.Kind + "\n" + o.Report
+		}
+	}
+	for _, p := range cold {
+		if p.got != serial[p.i] {
+			mismatches = append(mismatches, p.what+" differs from the serial result")
+		}
+	}
 	b, _ := json.Marshal(map[string]any{"outcome": "ok", "calls": calls, "goroutines": goroutines, "mismatches": mismatches})
 	fmt.Println(string(b))
 	_ = os.Stdout
